@@ -62,7 +62,34 @@ class Check(BaseCheck):
                     c = dict(c, t=gen.flip_some(rng, c["t"], 0.5), name=c["name"] + "+mixed-orientation")
                 yield dict(kind="tet", v=c["v"], t=c["t"], k=int(min(nv - 2, 4)), lump=bool(rng.random() < 0.4), name=c["name"], pres=c.get("pres"), vdtype=c.get("vdtype"))
 
+    def cavity_cases(self):
+        """a solid with an internal cavity (3x3x3 block of cubes without the centre cube, affinely distorted, consistently oriented tetrahedra)
+        and its two-sheeted boundary as a triangle mesh oriented as the boundary of the solid (cavity wall pointing into the cavity): the
+        enclosed volume is the sum of the tetra volumes, computed here without the library"""
+        rng = gen.rng_for(self.seed, "c04-cavity")
+        v, t = gen.cube_grid(3, 3, 3)
+        cen = v[t].mean(axis=1)
+        t = t[~np.all((cen > 1) & (cen < 2), axis=1)]
+        v = v * (1.0 + 0.3 * rng.random(3)) + 0.2 * rng.random(3)
+        t = gen.orient_tets_positive(v, t)
+        e = v[t[:, 1:]] - v[t[:, :1]]
+        ivol = float(np.abs(np.einsum("ij,ij->i", np.cross(e[:, 0], e[:, 1]), e[:, 2])).sum() / 6.0)
+        faces = {}
+        for tet in t:
+            for opp in range(4):
+                f = [int(tet[j]) for j in range(4) if j != opp]
+                n = np.cross(v[f[1]] - v[f[0]], v[f[2]] - v[f[0]])
+                if np.dot(n, v[int(tet[opp])] - v[f[0]]) > 0:      # turn the face away from the opposite vertex
+                    f = [f[0], f[2], f[1]]
+                faces.setdefault(tuple(sorted(f)), []).append(f)
+        bt = np.array([fs[0] for fs in faces.values() if len(fs) == 1], dtype=np.int64)
+        used = np.unique(bt); remap = -np.ones(len(v), dtype=np.int64); remap[used] = np.arange(len(used))
+        tet = dict(kind="tet", v=v, t=t, k=4, lump=False, name="block-with-cavity", ivol=ivol)
+        tri = dict(kind="tri", v=v[used], t=remap[bt], k=4, lump=False, name="two-sheeted-boundary-of-solid-with-cavity", ivol=ivol)
+        return [tet, tri]
+
     def correspond(self, drv, stats):
+        import itertools
         fails = []
         rng = gen.rng_for(self.seed, "c04c")
         # relation monitors: the invariance / scaling relations of the property evaluated on a few problems of either kind, both lumpings
@@ -88,7 +115,7 @@ class Check(BaseCheck):
             if vio is not None:
                 fails.append(core.Failure("correspondence", "ShapeDNA relations: " + vio.clause, vio.what, case))
         gen.use(None)
-        for case in self.problems(self.seed, 14 if self.quick else 600):
+        for case in itertools.chain(self.cavity_cases(), self.problems(self.seed, 14 if self.quick else 600)):
             kind, v, t, k = case["kind"], case["v"], case["t"], case["k"]
             gen.use(case)
             stats.case(core.mesh_key(v, t, k, case["lump"]), cls=[kind + ":" + case["name"], "k:%d" % k],
@@ -107,6 +134,8 @@ class Check(BaseCheck):
                 stats.monitor("normalize_ev skipped: boundary surface of the tetra sub-collection is not an orientable manifold")
                 continue
             area, vol = enc[1]
+            if "ivol" in case:
+                vol = case["ivol"]       # nested boundary components: the enclosed volume computed without the library's orient_ / volume
             for meth in ("surface", "volume", "geometry", "volume-inward"):
                 if kind == "tet" and meth in ("surface", "volume-inward"):
                     continue          # TetMesh has no area(): AttributeError, outside the property
@@ -133,7 +162,8 @@ class Check(BaseCheck):
         return fails
 
     def search_cases(self):
-        return self.problems(self.seed + 11, 10 if self.quick else 80)
+        import itertools
+        return itertools.chain(self.cavity_cases()[:1], self.problems(self.seed + 11, 10 if self.quick else 80))
 
     def oracle(self, case):
         kind = case["kind"]; v = np.asarray(case["v"], float); t = np.asarray(case["t"], dtype=np.int64); k = int(case["k"]); lump = bool(case["lump"])
@@ -178,6 +208,10 @@ class Check(BaseCheck):
             try:
                 e2 = spec(vv, tt)
             except Exception as e:  # noqa: BLE001
+                if "ARPACK" in str(e) or type(e).__name__.startswith("Arpack") or (not 1e-3 < fac < 1e3 and "singular" in str(e)):
+                    # convergence of the external eigensolver (mesh scaled to eigenvalues ~1e-12) and a numerically singular A - sigma*B (mesh scaled
+                    # so that sigma*B vanishes against A in double precision) are consequences of the fixed shift under extreme scaling: inconclusive
+                    continue
                 return core.Violation("invariance", "raised on %s: %s" % (name, e), case)
             if np.max(np.abs(e2 - fac * ev)) > tol * max(fac, 1.0):
                 return core.Violation("invariance", "spectrum changes under %s (max dev %.3g, scale %.3g)" % (name, np.max(np.abs(e2 - fac * ev)), scale), case)
@@ -189,6 +223,8 @@ class Check(BaseCheck):
             if enc[0] != "ok":
                 continue
             area, vol = enc[1]
+            if "ivol" in case:
+                vol = float(case["ivol"])
             if kind == "tri" and meth == "volume" and vol <= 1e-9:
                 continue
             with core.quiet():
